@@ -78,15 +78,28 @@ func main() {
 			n = 2
 		}
 		ids := ringh.AdversarialIDs(rng, n)
+		// fixed small rings in which the extreme identifier 0 (or 2^48-1) joins LAST
+		op := "lookup"
+		switch i {
+		case 2:
+			ids, op = []uint64{5 + rng.U64()%1000, 2000 + rng.U64()%ringh.M/2, 0}, "lookupq"
+		case 3:
+			ids, op = []uint64{ringh.M - 1, 0}, "lookupq"
+		case 4:
+			ids, op = []uint64{7, 0, 3, ringh.M - 1}, "lookupq"
+		}
 		s := ringh.NewSession(run, rng)
 		members := s.BuildRing(ids)
 		rounds := s.Repair(members, 8)
+		if rounds >= 8 {
+			op = "lookup" // no fixpoint reached: judged through the executable stability test only
+		}
 		run.Count(hlib.F("ring-size:%d", len(members)))
 		run.Count(hlib.F("repair-rounds:%d", rounds))
 		keys := ringh.InterestingKeys(rng, members, 12)
 		for _, m := range members {
 			for _, k := range keys {
-				s.Do("lookup", ringh.U(m), ringh.U(k))
+				s.Do(op, ringh.U(m), ringh.U(k))
 				key := ""
 				if len(members) >= 2 {
 					key = hlib.F("%v|%d|%d", members, m, k)
